@@ -5,6 +5,7 @@ import Driver.Sem
 import Driver.Trunc
 import Driver.TmplData
 import Driver.Retry
+import Driver.Gossip
 -- engines of work area Limits: import your Driver.<Engine> modules above and list them here
 namespace Driver.Reg.Limits
 def engines : List (String × IO UInt32) := [
@@ -13,6 +14,7 @@ def engines : List (String × IO UInt32) := [
   ("sem", Driver.runEngine Driver.Sem.engine),
   ("trunc", Driver.runEngine Driver.Trunc.engine),
   ("tmpldata", Driver.runEngine Driver.TmplData.engine),
-  ("retry", Driver.runEngine Driver.Retry.engine)
+  ("retry", Driver.runEngine Driver.Retry.engine),
+  ("gossip", Driver.runEngine Driver.Gossip.engine)
 ]
 end Driver.Reg.Limits
